@@ -208,6 +208,7 @@ from .value import (
     replace_known_sequence_value,
     set_self,
     stringify_object,
+    unannotate,
     unannotate_value,
     unite_and_simplify,
     unite_values,
@@ -5599,8 +5600,10 @@ class NameCheckVisitor(node_visitor.ReplacingNodeVisitor):
                 return_value = local
 
         if allow_call and isinstance(callee_wrapped, KnownValue):
-            arg_values = [arg.value for arg in args]
-            kw_values = [(kw, composite.value) for kw, composite in keywords]
+            arg_values = [unannotate(arg.value) for arg in args]
+            kw_values = [
+                (kw, unannotate(composite.value)) for kw, composite in keywords
+            ]
             if self._can_perform_call(arg_values, kw_values):
                 try:
                     result = callee_wrapped.val(
